@@ -66,6 +66,15 @@ func (f *frame) external(n *node, callee *ssa.Function, full string, args []Val,
 			}
 			return Val{T: rt, C: []string{r}}, true
 		}
+	case "strings.EqualFold", "strings.HasPrefix", "strings.HasSuffix", "strings.Contains":
+		// pure predicates over two strings: the same operands give the same answer
+		if len(args) == 2 && len(args[0].C) == 3 && len(args[1].C) == 3 {
+			x.note("trusted model: %s is a function of its operands (uninterpreted)", full)
+			ss := arrSort(SortBV64, SortBV8)
+			fn := g.Fun("str:"+strings.TrimPrefix(full, "strings."), []string{ss, SortBV64, SortBV64, ss, SortBV64, SortBV64}, SortBool)
+			t := g.Fresh(SortBool, "("+fn+" "+strings.Join(append(append([]string{}, args[0].C...), args[1].C...), " ")+")")
+			return Val{T: rt, C: []string{t}}, true
+		}
 	case "strconv.ParseInt", "strconv.ParseUint":
 		// a successful parse with a constant bit size yields a value of that size
 		if len(args) == 3 && len(args[2].C) == 1 {
